@@ -190,8 +190,11 @@ def daemon_fn(env: Env, hid: str, reaction: str = 'obeys', lifetime: float | Non
         inst = env.count(f'daemon-inst:{hid}')
         env.log('daemon-enter', id=hid, uid=uid, name=name, op=op, inst=inst, retry=kw.get('retry'))
 
+        flagged = []
+
         async def flagwatch() -> None:
             await stopped.wait()
+            flagged.append(True)
             env.log('daemon-flag', id=hid, uid=uid, name=name, op=op, inst=inst, reason=str(stopped.reason))
         watcher = asyncio.create_task(flagwatch(), name=f'flagwatch {hid} {inst}')
         how = 'returned'
@@ -227,6 +230,8 @@ def daemon_fn(env: Env, hid: str, reaction: str = 'obeys', lifetime: float | Non
                 raise RuntimeError(reaction)
         finally:
             watcher.cancel()
+            if stopped.is_set() and not flagged:
+                env.log('daemon-flag', id=hid, uid=uid, name=name, op=op, inst=inst, reason=str(stopped.reason))
             env.log('daemon-exit', id=hid, uid=uid, name=name, op=op, inst=inst, how=how)
     fn.__name__ = fn.__qualname__ = hid
     return fn
